@@ -244,3 +244,43 @@ POSITION_UPDATE = FunctionContract(
     ],
     z3_first_ms=3000,
 )
+
+
+# ---- C07.P9: the protected-range lookup of the brace repair (nested helper of WriteTool._repair_curly_brace_annotations) ------
+from verif.pyvc.verify import IntPairList
+
+WRITE_MOD = "octave_mcp.mcp.write"
+_J1, _J2 = z3.Int("sorted.j1"), z3.Int("sorted.j2")
+
+
+def _is_protected_fn():
+    return _LS.nested_function(WRITE_MOD, "WriteTool._repair_curly_brace_annotations", "_is_protected")
+
+
+def _sorted_starts(p):
+    if isinstance(p, SymSeq):
+        return z3.ForAll([_J1, _J2], z3.Implies(z3.And(_J1 >= 0, _J1 <= _J2, _J2 < p.length), p.first(_J1) <= p.first(_J2)), patterns=[z3.MultiPattern(p.first(_J1), p.first(_J2))])
+    return all(x[0] <= y[0] for x, y in zip(p, p[1:]))
+
+
+def _covered(a):
+    return S.exists_index(a.protected, lambda j, e: S.And(S.items(e)[0] <= a.pos, a.pos < S.items(e)[1]))
+
+
+IS_PROTECTED = FunctionContract(
+    WRITE_MOD,
+    "WriteTool._repair_curly_brace_annotations",
+    label="#_is_protected",
+    step=_is_protected_fn,
+    params={"protected": IntPairList(), "pos": Int()},
+    # the caller sorts the list (protected.sort()) before the helper is used: starts are non-decreasing
+    pre=lambda a: _sorted_starts(a.protected),
+    posts={
+        # a position is reported protected exactly when some [start, end) range contains it - in particular the early
+        # `break` on the sorted list never skips a containing range
+        "protected-iff-inside-some-range": lambda a, r: r == _covered(a),
+    },
+    raises=(),
+    covers={"protected": lambda a, r: r, "live": lambda a, r: S.Not(r)},
+    replay_hints=[dict(protected=[(0, 5), (3, 9), (20, 25)], pos=p) for p in (0, 4, 5, 8, 9, 19, 20, 24, 25, 30)],
+)
